@@ -119,15 +119,15 @@ pub(crate) fn file_name<'a, P: AsRef<Path> + ?Sized>(
     let path = path.as_ref().as_os_str().as_bytes();
     if path.is_empty() {
         return None;
-    } else if path.len() == 1 && path[0] == b'.' {
-        return None;
-    } else if path.last() == Some(&b'.') {
-        return None;
-    } else if path.len() >= 2 && &path[path.len() - 2..] == &b".."[..] {
-        return None;
     }
     let last_slash = memrchr(b'/', path).map(|i| i + 1).unwrap_or(0);
-    Some(OsStr::from_bytes(&path[last_slash..]))
+    let name = &path[last_slash..];
+    // Only `.` and `..` themselves aren't normal file names. A name that
+    // merely ends with a `.` (like `foo.` or `.foo.`) is.
+    if name == b"." || name == b".." {
+        return None;
+    }
+    Some(OsStr::from_bytes(name))
 }
 
 /// The final component of the path, if it is a normal file.
